@@ -1789,3 +1789,39 @@ func (r *Runner) ReplaceWitness() *Stmt {
 	st.After = func() { t.NextID = base + 6 }
 	return st
 }
+
+// KnownReplaceWitness: the corpus entry of known finding F41, run first on every C05 run whatever the seed:
+// table tw(id,v) = (1,a),(2,x); REPLACE INTO tw (id, v) USING (id) VALUES (1,'b'),(1,'c').  The property text
+// wants the second given row to update the record with id 1 as well; csvq appends it.
+func KnownReplaceWitness(g *hc.Gen, o *hc.Out, root string) {
+	r := &Runner{G: g, O: o, CPU: 1}
+	r.Dir = filepath.Join(root, "witness-f41")
+	_ = os.MkdirAll(r.Dir, 0o755)
+	defer os.RemoveAll(r.Dir)
+	_ = os.WriteFile(filepath.Join(r.Dir, "tw.csv"), []byte("id,v\n1,a\n2,x\n"), 0o644)
+	t := &Tab{Name: "tw", File: true, Cols: []string{"id", "v"}, Kind: map[string]int{"id": KInt, "v": KStr}, NextID: 3}
+	r.Tabs = []*Tab{t}
+	r.Pr = hc.NewProc(r.Dir)
+	r.Pr.SetCPU(1)
+	defer r.Pr.Close()
+	o.Case("c05.reset", "ok")
+	r.SendTable(t)
+	rows := [][]Ex{{Int(1), Lit(value.NewString("b"))}, {Int(1), Lit(value.NewString("c"))}}
+	var rs, rt []string
+	for _, row := range rows {
+		rs = append(rs, "("+sqls(row)+")")
+		rt = append(rt, "2 "+toks(row))
+	}
+	st := &Stmt{Kind: "replace", Targets: []string{"tw"}}
+	st.SQL = "REPLACE INTO tw (id, v) USING (id) VALUES " + strings.Join(rs, ", ")
+	st.Op = "replace tw 2 id v 1 id 2 " + strings.Join(rt, " ")
+	st.Check = func(before, after map[string]*Snap, _ map[string][]string, counts map[string]int) []string {
+		a := after["tw"]
+		if len(a.IDs) > 2 && a.IDs[len(a.IDs)-1] == "1" {
+			return []string{"replace_appended_row_with_existing_key"}
+		}
+		return nil
+	}
+	r.Exec(st, 0)
+	o.Count("corpus:F41")
+}
